@@ -650,7 +650,9 @@ func blockGasFromResults(rs []*abci.ExecTxResult) uint64 {
 			u = 0
 		}
 		wanted := uint64(res.GasWanted) // -1 => MaxUint64
-		if res.GasWanted == 0 && !(res.Codespace == "sdk" && res.Code == 11) {
+		if res.GasWanted == 0 {
+			// no limit was established (the ante handler did not get as far, e.g. it panicked and was recovered): baseapp
+			// charges the block meter with what the transaction consumed; "no block gas left to run tx" results carry 0 used
 			wanted = ^uint64(0)
 		}
 		if u > wanted {
@@ -765,7 +767,11 @@ func runHistory(run *vh.Run, rep *reporter, v histVariant, world int, nBlocks in
 			// the harness' reading of the consensus results is off (or something other than baseapp.runTx
 			// charged the block meter): no verdict for this block, and the run is not allowed to pass
 			run.Count("hist_block_gas_recomputation_disagrees", 1)
-			run.Inconclusive(fmt.Sprintf("block gas recomputed from consensus results (%d) != SDK block gas meter (%d) at %s height %d", consumed, sdkMeter, label, height))
+			var rs []string
+			for i, res := range br.Res.TxResults {
+				rs = append(rs, fmt.Sprintf("#%d %s code=%s/%d used=%d wanted=%d log=%s", i, plans[i].Lane, res.Codespace, res.Code, res.GasUsed, res.GasWanted, trunc(res.Log, 60)))
+			}
+			run.Inconclusive(fmt.Sprintf("block gas recomputed from consensus results (%d) != SDK block gas meter (%d) at %s height %d: %s", consumed, sdkMeter, label, height, strings.Join(rs, "; ")))
 			inForce = c.BaseFee()
 			continue
 		}
